@@ -36,7 +36,7 @@ SCOPE = ('each of the 8 built-in reset functions with symbolic parameters (count
          'symbolic variable: on every path the call raises ValueError or returns a state satisfying the oracle of the property statement; '
          'any other exception or a malformed state is a violation')
 BOUNDS = {
-    'quick': dict(shapes='every HxW in 1..6 x 1..6 for empty/keydoor/crossing/teleport/memory (crossing and memory also 7x7 / 5x7, 7x5); '
+    'quick': dict(long_grids='CONCRETE sweep (not a solver verdict): rooms / memory_rooms on 7 x n and n x 7, n <= 40 (thorough 72), 1..n/2 rooms along the long axis', shapes='every HxW in 1..6 x 1..6 for empty/keydoor/crossing/teleport/memory (crossing and memory also 7x7 / 5x7, 7x5); '
                          'dynamic_obstacles 1..5 x 1..5; rooms 1..7 (layouts 1..2 x 1..2, also 0 and 3 on small shapes); memory_rooms 3x3..4x4 layout 1x1 with num_beacons 0..2 x num_exits 1..3; 4x5/5x4 layouts 1x1,1x2,2x1 (and invalid 0x1, 1x3 on 4x4) with 1 beacon, 2 exits',
                   parameters='random_agent/random_exit both values; num_obstacles in [-1, vacant+1] (<=4 vacant cells) resp. {-1..2, vacant+1}; num_rivers in [-1, 4]; river type Wall/MovingObstacle; '
                              'colour subsets: all 32 subsets for memory on one shape, {RED,BLUE},{RED,GREEN,BLUE} elsewhere; num_beacons 0..2, num_exits 1..3',
